@@ -38,6 +38,7 @@ pub const CLASSES: &[&str] = &[
     "beyond-retention",
     "cross-gateway",
     "empty-batch",
+    "resubmit-earlier-accepted",
 ];
 
 pub struct World {
@@ -462,7 +463,7 @@ fn own(reason: &str, prop: &str) -> bool {
 
 pub fn run(ctx: &Ctx, rep: &mut Report) {
     let total = ctx.universes(2400, 200000);
-    let per_universe = 30;
+    let per_universe = 34;
     let mut seen_classes = std::collections::BTreeSet::new();
     for uni in ctx.my_universes(total) {
         let mut rng = ctx.rng_for(uni);
@@ -488,7 +489,62 @@ pub fn run(ctx: &Ctx, rep: &mut Report) {
         while order.len() < per_universe {
             order.push(CLASSES[rng.usize(CLASSES.len())]);
         }
+        let mut accepted: Vec<(bool, [u8; 32], Vec<MMessage>, ProofPlan)> = Vec::new();
         for class in order {
+            // the history goes on between submissions: now and then the signers rotate
+            if rng.chance(1, 7) {
+                let cand = gen_wellformed_set(&mut rng, &mut w.ring, max_signers);
+                let ok = {
+                    let World { u, ring, g, .. } = &mut w;
+                    g.rotate_honest(u, ring, &cand)
+                };
+                rep.step(format!("rotation to epoch {} (honest)", w.g.model.epoch()));
+                rep.count("mid-history-rotation");
+                if !ok {
+                    rep.foreign("mid-history-rotation-refused");
+                    break;
+                }
+            }
+            if class == "resubmit-earlier-accepted" {
+                // byte-identical resubmission of something accepted earlier in this history
+                if accepted.is_empty() {
+                    continue;
+                }
+                let (standalone, dh, msgs, plan) = accepted[rng.usize(accepted.len())].clone();
+                let expect = if standalone { w.g.model.expect_proof(&plan) } else { w.g.model.expect_approve(&msgs, &plan) };
+                let gap = w.g.model.epoch_of(&plan.declared).map(|e| w.g.model.epoch() - e);
+                rep.step(format!("resubmit identical {} gap={:?} expect={:?}", if standalone { "validate_proof" } else { "approve_messages" }, gap, expect));
+                let (ok, leak, events) = if standalone {
+                    let o = w.g.do_validate_proof(&mut w.u, &dh, &plan);
+                    (o.ok(), o.leak.clone(), o.events.clone())
+                } else {
+                    let o = w.g.do_approve(&mut w.u, &msgs, &plan);
+                    (o.ok(), o.leak.clone(), o.events.clone())
+                };
+                seen_classes.insert(class);
+                rep.eval(class, &format!("resubmit|{}|{:?}|{}|gap={:?}", standalone, expect, ok, gap), true);
+                if leak.is_some() {
+                    rep.violation("rejected-submission-left-trace:resubmit-earlier-accepted", leak.unwrap());
+                    break;
+                }
+                match (&expect, ok) {
+                    (Must::Fail(r), true) => {
+                        if own(r, &ctx.prop) {
+                            rep.violation(&format!("accepted:resubmit-earlier-accepted:{}", r), format!("a proof that was accepted earlier is accepted again although the model says it must now fail: {}", r));
+                        }
+                        break;
+                    }
+                    (Must::Succeed, false) => {
+                        rep.violation("refused:resubmit-earlier-accepted", "an identical, still valid proof was refused the second time".into());
+                        break;
+                    }
+                    _ => {}
+                }
+                if ok && !standalone && events.iter().any(|e| e.contract == w.g.sc && e.kind() == "message_approved") && ctx.prop == "C02" {
+                    rep.violation("resubmission-announced-again", "message_approved emitted for a resubmitted batch".into());
+                }
+                continue;
+            }
             let standalone = class != "empty-batch"
                 && class != "sig-other-batch"
                 && class != "sig-other-command"
@@ -613,6 +669,9 @@ pub fn run(ctx: &Ctx, rep: &mut Report) {
             if diverged {
                 break;
             }
+            if ok && accepted.len() < 12 {
+                accepted.push((standalone, dh, msgs.clone(), plan.clone()));
+            }
             if ok {
                 if standalone {
                     let want = w.g.model.is_latest(&plan);
@@ -685,7 +744,7 @@ pub fn run(ctx: &Ctx, rep: &mut Report) {
         }
     }
     rep.notes.insert("required".into(), json!(CLASSES));
-    rep.notes.insert("rule".into(), json!("per universe: gateway with retention in {0,1,2,5}, 1-3 initial sets, 0-6 honest rotations, optionally a second gateway with another domain separator and the same sets; 30 submissions (approve_messages or standalone validate_proof), every one of 26 classes at least once per universe (honest all/subset/exact-threshold/old-retained; one-short; signatures over another domain/command/batch/set; wrong key; bit flip; extra invalid signature; every slot independently unsigned/valid/invalid; unsigned or insufficient valid prefix followed by garbage signatures; declared set with dropped/added/duplicated/swapped signer, changed weight/threshold/nonce, kept or re-signed; never installed; beyond retention; cross-gateway replay; empty batch); distinct = (class, entry point, expectation, outcome, signer count, retention, epoch gap)"));
+    rep.notes.insert("rule".into(), json!("per universe: gateway with retention in {0,1,2,5}, 1-3 initial sets, 0-6 honest rotations, optionally a second gateway with another domain separator and the same sets; 34 submissions (approve_messages or standalone validate_proof) interleaved with further honest rotations, every one of 27 classes at least once per universe (honest all/subset/exact-threshold/old-retained; one-short; signatures over another domain/command/batch/set; wrong key; bit flip; extra invalid signature; every slot independently unsigned/valid/invalid; unsigned or insufficient valid prefix followed by garbage signatures; declared set with dropped/added/duplicated/swapped signer, changed weight/threshold/nonce, kept or re-signed; never installed; beyond retention; cross-gateway replay; empty batch; byte-identical resubmission of a submission accepted earlier in the same history, possibly after its signer set left the retention window); distinct = (class, entry point, expectation, outcome, signer count, retention, epoch gap)"));
     rep.notes.insert(
         "classes_seen".into(),
         json!(seen_classes.iter().collect::<Vec<_>>()),
